@@ -47,6 +47,7 @@ EXPECTED_MISSES = {
 
 # (id, property, expected rule prefix, edits)
 FIRE: List[Tuple[str, str, str, List[Tuple[str, str, str]]]] = [
+    ('enum-collision-fallback-keeps-raw-names', 'C19', 'I4', [(MD, '        # Get entries/allowed values for this Enum\n        self.entries = [\n            self.EnumEntry(\n                name=pythonize_enum_member_name(\n                    entry_proto_value.name, self.proto_obj.name\n                ),\n                value=entry_proto_value.number,\n                comment=get_comment(\n                    proto_file=self.source_file, path=self.path + [2, entry_number]\n                ),\n            )\n            for entry_number, entry_proto_value in enumerate(self.proto_obj.value)\n        ]\n        if len({entry.name for entry in self.entries}) != len(self.entries):\n            # Dropping the prefix made two members collide (``FOO_A`` and ``A``):\n            # keep the proto names, every value needs a member of its own.\n            for entry, entry_proto_value in zip(self.entries, self.proto_obj.value):\n                entry.name = sanitize_name(entry_proto_value.name)\n', '        # Get entries/allowed values for this Enum\n        values = self.proto_obj.value\n        names = [\n            pythonize_enum_member_name(value.name, self.proto_obj.name)\n            for value in values\n        ]\n        if len(set(names)) != len(names):\n            names = [value.name for value in values]\n        self.entries = [\n            self.EnumEntry(\n                name=name,\n                value=value.number,\n                comment=get_comment(\n                    proto_file=self.source_file, path=self.path + [2, entry_number]\n                ),\n            )\n            for entry_number, (name, value) in enumerate(zip(names, values))\n        ]\n')]),
     ("wkt-redirect-skipped-for-subpackages", "C13", "X13", [(IM, "    compiling_google_protobuf = current_package == [\"google\", \"protobuf\"]\n", "    compiling_google_protobuf = package.startswith(\"google.protobuf\")\n")]),
     ("post-init-does-not-mark-fieldless-children", "C18", "Y14", [(I, "                if isinstance(value, Message) and not value._betterproto.meta_by_field_name:\n                    # A field-less message carries nothing but its presence. A\n                    # constructor that stores its arguments without going through\n                    # __setattr__ (pydantic dataclasses) has not marked it yet.\n                    value._serialized_on_wire = True\n\n", "")]),
     ("is-set-merged-branches-default-true", "C14", "V7", [(I, "        if isinstance(value, Message):\n            return value._serialized_on_wire or bool(value)\n        if isinstance(value, (list, dict)):\n            return bool(value)\n", "        if isinstance(value, (Message, list, dict)):\n            return bool(value) or getattr(value, \"_serialized_on_wire\", True)\n")]),
@@ -180,6 +181,7 @@ CODEC = ["C01", "C02", "C06", "C08", "C09", "C10", "C16", "C17", "C20"]
 
 # (id, properties that must stay at exit 0, edits)  -- behaviour-preserving refactors
 SILENT: List[Tuple[str, List[str], List[Any]]] = [
+    ('enum-names-computed-first-fallback-sanitised', ['C19', 'C03'], [(MD, '        # Get entries/allowed values for this Enum\n        self.entries = [\n            self.EnumEntry(\n                name=pythonize_enum_member_name(\n                    entry_proto_value.name, self.proto_obj.name\n                ),\n                value=entry_proto_value.number,\n                comment=get_comment(\n                    proto_file=self.source_file, path=self.path + [2, entry_number]\n                ),\n            )\n            for entry_number, entry_proto_value in enumerate(self.proto_obj.value)\n        ]\n        if len({entry.name for entry in self.entries}) != len(self.entries):\n            # Dropping the prefix made two members collide (``FOO_A`` and ``A``):\n            # keep the proto names, every value needs a member of its own.\n            for entry, entry_proto_value in zip(self.entries, self.proto_obj.value):\n                entry.name = sanitize_name(entry_proto_value.name)\n', '        # Get entries/allowed values for this Enum\n        values = self.proto_obj.value\n        names = [\n            pythonize_enum_member_name(value.name, self.proto_obj.name)\n            for value in values\n        ]\n        if len(set(names)) != len(names):\n            names = [sanitize_name(value.name) for value in values]\n        self.entries = [\n            self.EnumEntry(\n                name=name,\n                value=value.number,\n                comment=get_comment(\n                    proto_file=self.source_file, path=self.path + [2, entry_number]\n                ),\n            )\n            for entry_number, (name, value) in enumerate(zip(names, values))\n        ]\n')]),
     ("wkt-redirect-test-on-package-text", ["C13", "C03"], [(IM, "    compiling_google_protobuf = current_package == [\"google\", \"protobuf\"]\n", "    compiling_google_protobuf = package == \"google.protobuf\"\n")]),
     # the two halves of seeded C03-14, each harmless on its own: the value helper of a map field still records the import /
     # the map field's own annotation still names the type
